@@ -1156,6 +1156,11 @@ type DischargeOpts struct {
 // select/sbyte in the query, giving i := g - base. Dropping the quantified form
 // keeps the query quantifier-free (a "sat" answer is then only a candidate
 // counterexample); it is sound for proofs because instances are consequences.
+type appBase struct {
+	key  string
+	base *smt.Term
+}
+
 func (e *Engine) instantiate(hyps []*smt.Term, goal *smt.Term, skolems []*smt.Term) []*smt.Term {
 	c := e.C
 	var quants, ground []*smt.Term
@@ -1275,6 +1280,7 @@ func (e *Engine) instantiate(hyps []*smt.Term, goal *smt.Term, skolems []*smt.Te
 			pseen := map[*smt.Term]bool{}
 			var bases []*smt.Term
 			var appKeys []string
+			var appBases []appBase
 			direct := false
 			var prec func(t *smt.Term)
 			prec = func(t *smt.Term) {
@@ -1291,8 +1297,16 @@ func (e *Engine) instantiate(hyps []*smt.Term, goal *smt.Term, skolems []*smt.Te
 				}
 				if t.Op == smt.OApp && strings.HasPrefix(t.Name, "spec$") {
 					for pi, a := range t.Args {
+						k := t.Name + "#" + strconv.Itoa(pi)
 						if a == bv {
-							appKeys = append(appKeys, t.Name+"#"+strconv.Itoa(pi))
+							appKeys = append(appKeys, k)
+						} else if a.Op == smt.OBvAdd && len(a.Args) == 2 {
+							// f(..., x + i, ...): candidates are g - x for ground arguments g
+							if a.Args[0] == bv && !a.Args[1].HasBound() {
+								appBases = append(appBases, appBase{k, a.Args[1]})
+							} else if a.Args[1] == bv && !a.Args[0].HasBound() {
+								appBases = append(appBases, appBase{k, a.Args[0]})
+							}
 						}
 					}
 				}
@@ -1323,6 +1337,11 @@ func (e *Engine) instantiate(hyps []*smt.Term, goal *smt.Term, skolems []*smt.Te
 			for _, k := range appKeys {
 				for g := range gapp[k] {
 					cands[g] = true
+				}
+			}
+			for _, ab := range appBases {
+				for g := range gapp[ab.key] {
+					cands[c.Sub(g, ab.base)] = true
 				}
 			}
 			for _, g := range gl {
@@ -1716,3 +1735,61 @@ func HasTag(tags []string, t string) bool {
 
 var _ = os.Stderr
 var _ *ssa.Function
+
+// CallsTagged reports whether fc's function calls (directly, or through callees that have
+// no contract and are therefore inlined, up to a small depth) a function whose contract has
+// a requires clause tagged with prop: the call-site obligations of that clause belong to
+// the property and exist only if the caller is verified.
+func (e *Engine) CallsTagged(fc *FnContract, prop string) bool {
+	if fc.Fn == nil {
+		return false
+	}
+	seen := map[*ssa.Function]bool{}
+	var scan func(fn *ssa.Function, depth int) bool
+	scan = func(fn *ssa.Function, depth int) bool {
+		if fn == nil || seen[fn] || depth > 3 {
+			return false
+		}
+		seen[fn] = true
+		for _, b := range fn.Blocks {
+			for _, in := range b.Instrs {
+				ci, ok := in.(ssa.CallInstruction)
+				if !ok {
+					continue
+				}
+				cc := ci.Common()
+				var key string
+				var callee *ssa.Function
+				if cc.IsInvoke() {
+					key = e.objKey(cc.Method)
+				} else if callee = cc.StaticCallee(); callee != nil {
+					key = e.fnKey(callee)
+				} else {
+					continue
+				}
+				if c2 := e.Contracts[key]; c2 != nil {
+					for _, rq := range c2.Requires {
+						if HasTag(rq.C.Tags, prop) {
+							return true
+						}
+					}
+					if !c2.B.Inline {
+						continue
+					}
+				}
+				if callee != nil && len(callee.Blocks) > 0 && e.Contracts[key] == nil {
+					if scan(callee, depth+1) {
+						return true
+					}
+				}
+			}
+		}
+		for _, af := range fn.AnonFuncs {
+			if scan(af, depth+1) {
+				return true
+			}
+		}
+		return false
+	}
+	return scan(fc.Fn, 0)
+}
